@@ -439,8 +439,51 @@ class _Frame(object):
         self.loopctl = []     # stack of lists collecting conds of break/continue
 
 
+_PURE_STR = ('replace', 'lower', 'upper', 'strip', 'lstrip', 'rstrip')
+
+
+class _FoldStr(ast.NodeTransformer):
+    """'gboolean'.replace('*', '') -> 'gboolean': pure str methods on constant receivers with constant arguments (appear after copy propagation)"""
+    def visit_Call(self, n):
+        self.generic_visit(n)
+        if isinstance(n.func, ast.Attribute) and n.func.attr in _PURE_STR and isinstance(n.func.value, ast.Constant) and isinstance(n.func.value.value, str) \
+                and not n.keywords and all(isinstance(a, ast.Constant) and isinstance(a.value, (str, int)) for a in n.args):
+            try:
+                return ast.copy_location(ast.Constant(value=getattr(n.func.value.value, n.func.attr)(*[a.value for a in n.args])), n)
+            except Exception:
+                return n
+        return n
+
+
+def _expand_kwargs(n):
+    """f(**dict(a=x, b=y)) / f(**{'a': x}) -> f(a=x, b=y): a keyword dictionary built in place (visible after copy propagation of the local holding it)"""
+    if not isinstance(n, ast.AST) or not any(isinstance(x, ast.Call) and any(k.arg is None for k in x.keywords) for x in ast.walk(n)):
+        return n
+
+    class T(ast.NodeTransformer):
+        def visit_Call(self, c):
+            self.generic_visit(c)
+            new_kw = []
+            for k in c.keywords:
+                v = k.value
+                if k.arg is None and isinstance(v, ast.Call) and isinstance(v.func, ast.Name) and v.func.id == 'dict' and not v.args and all(x.arg for x in v.keywords):
+                    new_kw.extend(ast.keyword(arg=x.arg, value=x.value) for x in v.keywords)
+                elif k.arg is None and isinstance(v, ast.Dict) and all(isinstance(x, ast.Constant) and isinstance(x.value, str) for x in v.keys):
+                    new_kw.extend(ast.keyword(arg=x.value, value=y) for x, y in zip(v.keys, v.values))
+                else:
+                    new_kw.append(k)
+            c.keywords = new_kw
+            return c
+    import copy as _copy
+    return ast.fix_missing_locations(T().visit(_copy.deepcopy(n)))
+
+
 def _unparse(n):
     try:
+        if isinstance(n, ast.AST) and any(isinstance(x, ast.Call) and isinstance(x.func, ast.Attribute) and x.func.attr in _PURE_STR and isinstance(x.func.value, ast.Constant)
+                                           for x in ast.walk(n)):
+            import copy as _copy
+            n = _FoldStr().visit(_copy.deepcopy(n))
         return ast.unparse(n)
     except Exception:
         return P.src(n)
@@ -551,7 +594,7 @@ class Summary(object):
             combos = new
         out = []
         for g, m_ in combos:
-            out.append((g, _replace(expr, m_, bound)))
+            out.append((g, _expand_kwargs(_replace(expr, m_, bound))))
         if len(out) > 1:
             out = [(g, n) for g, n in out if sat(conj(pc, g))] or out
         return out
@@ -1052,7 +1095,8 @@ class Summary(object):
             for h, ex in zip(st.handlers, hat):
                 self.block(h.body, env, conj(pc, ex), fr)
             if st.orelse and out is not False:
-                self.block(st.orelse, env, out, fr)
+                # the else clause runs only when the body raised nothing
+                self.block(st.orelse, env, conj(out, *[neg(a) for a in hat]) if hat else out, fr)
             out = self.after(pc, fr, mark)
             if st.finalbody:
                 self.block(st.finalbody, env, pc, fr)
